@@ -170,7 +170,27 @@ func (c *Child) read(timeout time.Duration) (*ChildResponse, error) {
 		c.dead = true
 		return nil, ErrChildDied
 	case <-time.After(timeout):
-		return nil, fmt.Errorf("child did not answer within %v", timeout)
+		// ask the Go runtime of the child for a goroutine dump (SIGQUIT) so a wedge can be analysed, keep a copy
+		dump := ""
+		if c.cmd != nil && c.cmd.Process != nil {
+			c.cmd.Process.Signal(syscall.SIGQUIT)
+			select {
+			case <-c.waited:
+			case <-time.After(5 * time.Second):
+			}
+			if dir := os.Getenv("VERIF_DIR"); dir != "" {
+				if b, err := os.ReadFile(c.stderr); err == nil {
+					if len(b) > 400000 {
+						b = b[len(b)-400000:]
+					}
+					os.MkdirAll(filepath.Join(dir, "replays", "found"), 0755)
+					dump = filepath.Join(dir, "replays", "found", fmt.Sprintf("wedge-goroutines-%d.txt", time.Now().UnixNano()))
+					os.WriteFile(dump, b, 0644)
+				}
+			}
+		}
+		c.dead = true
+		return nil, fmt.Errorf("child did not answer within %v (goroutine dump: %s)", timeout, dump)
 	}
 }
 
